@@ -196,10 +196,22 @@ type world struct {
 	ops      []*opRec
 	probed   map[string]bool
 
+	// race stratum
+	gate        chan struct{}
+	gateArmed   bool
+	gaterYields int
+
 	hpEvents   []hpEvent
 	hpStreams  []hpStream
 	hpConnects []hpConnect
 	wrapped    bool // hole punch services built by the harness around a recording host wrapper
+}
+
+func (w *world) openGate() {
+	if w.gate != nil {
+		close(w.gate)
+		w.gate = nil
+	}
 }
 
 func (w *world) probe(name string) {
@@ -253,7 +265,16 @@ func (g *recGater) InterceptSecured(network.Direction, peer.ID, network.ConnMult
 func (g *recGater) InterceptUpgraded(c network.Conn) (bool, control.DisconnectReason) {
 	if ci := g.v.info(c); ci != nil && ci.admit == 0 {
 		ci.admit, ci.admitAt = simrt.Stamp(), simrt.Now()
-		g.v.w.activity++
+		w := g.v.w
+		w.activity++
+		if g.v.node == 0 && w.gateArmed && !ci.limited && !ci.relayed {
+			// race stratum: release the waiters now and linger for a drawn number of scheduling points
+			w.gateArmed = false
+			w.openGate()
+			for i := 0; i < w.gaterYields; i++ {
+				simrt.Yield("c12.gater")
+			}
+		}
 	}
 	return true, 0
 }
@@ -491,7 +512,32 @@ type envStep struct {
 	pre  time.Duration
 }
 
-func runWorld(t *testing.T, tape *simrt.Tape, g simrt.Gen, layerB bool) *common.Outcome {
+// strata
+const (
+	modeA    = iota // layer A: free mix of callers and environment tasks
+	modeB           // layer B: hole punching behind firewalls
+	modeRace        // layer A, targeted: waiters start while a direct connection is being registered
+)
+
+// one round of the race stratum: the peer is reachable over the limited connection only; 1-4 waiter
+// tasks call Swarm.NewStream without allow-limited at the instant a direct connection is admitted on A
+// (A's gater sees it just before the swarm registers it), with drawn numbers of extra scheduling points
+// on both sides, so that the registration lands around the waiter's check-then-register window.
+type raceWaiter struct {
+	yields int
+	spec   opSpec
+}
+type raceRound struct {
+	waiters       []raceWaiter
+	inbound       bool // B dials A (otherwise A dials B)
+	gateAtDial    bool // waiters are released when the dial starts (otherwise when A's gater admits the connection)
+	gaterYields   int  // scheduling points spent inside InterceptUpgraded after releasing the waiters
+	dialerYields  int  // scheduling points before the dial starts
+	holdDirectFor time.Duration
+}
+
+func runWorld(t *testing.T, tape *simrt.Tape, g simrt.Gen, mode int) *common.Outcome {
+	layerB := mode == modeB
 	o := &common.Outcome{}
 	w := &world{o: o, layerB: layerB, probed: map[string]bool{}}
 	for i := range w.v {
@@ -513,7 +559,18 @@ func runWorld(t *testing.T, tape *simrt.Tape, g simrt.Gen, layerB bool) *common.
 		knowsDirect              = true
 		advertiseRelayAddr       bool
 	)
-	if !layerB {
+	var rounds []raceRound
+	if mode == modeRace {
+		relayMode, initial, reachable = 0, 0, true
+		for i, n := 0, g.Range(3, 6); i < n; i++ {
+			rd := raceRound{inbound: g.Bool(), gateAtDial: g.Chance(1, 4), gaterYields: g.Int(10), dialerYields: g.Int(4)}
+			for k, nw := 0, g.Range(1, 4); k < nw; k++ {
+				rd.waiters = append(rd.waiters, raceWaiter{yields: g.Int(8), spec: opSpec{api: apiSwarmNewStream, nodial: !g.Chance(1, 4),
+					timeout: 5 * time.Second, dpt: []time.Duration{2 * time.Second, 8 * time.Second}[g.Weighted(3, 1)]}})
+			}
+			rounds = append(rounds, rd)
+		}
+	} else if !layerB {
 		initial = g.Weighted(5, 2, 1, 2) // 0 limited only, 1 none, 2 direct only, 3 both
 		reachable = g.Chance(1, 3)       // B's listener accepts direct dials at the start of the concurrent phase
 		nCallers = g.Range(1, 4)
@@ -573,7 +630,7 @@ func runWorld(t *testing.T, tape *simrt.Tape, g simrt.Gen, layerB bool) *common.
 	}
 	samplePause := []time.Duration{500 * time.Millisecond, 30 * time.Millisecond, 4 * time.Second}[g.Int(3)]
 	aReserves := g.Bool() // A holds a reservation on the relay too, so that B can reach A through it (inbound limited connections on A)
-	if !layerB && g.Chance(1, 6) {
+	if mode == modeA && g.Chance(1, 6) {
 		// bias towards the rarest race: a waiter is woken by a direct connection that is gone again before the waiter looks
 		initial = 0
 		for c := range callers { // several waiters: the later a woken waiter runs, the likelier the connection is gone
@@ -587,7 +644,15 @@ func runWorld(t *testing.T, tape *simrt.Tape, g simrt.Gen, layerB bool) *common.
 		envs[0] = append(steps, envs[0]...)
 	}
 
-	if !layerB {
+	if mode == modeRace {
+		o.Logf("layer A / race stratum: security=%s", secu)
+		for i, rd := range rounds {
+			o.Logf(" round%d inbound=%v gate-at-dial=%v gater-yields=%d dialer-yields=%d", i, rd.inbound, rd.gateAtDial, rd.gaterYields, rd.dialerYields)
+			for k, wt := range rd.waiters {
+				o.Logf("  waiter%d yields=%d %v", k, wt.yields, wt.spec)
+			}
+		}
+	} else if !layerB {
 		o.Logf("layer A: relay=%d(0 default limits,1 15s limit,2 unlimited) initial=%d(0 limited,1 none,2 direct,3 both) reachable=%v security=%s", relayMode, initial, reachable, secu)
 	} else {
 		o.Logf("layer B: relay=%d(0 default limits,1 15s limit,2 unlimited) firewall A=%s B=%s latencies=%v directDialTimeout=%v A-knows-B's-direct-address=%v relay-address-advertised=%v wrapped-service=%v security=%s",
@@ -930,6 +995,70 @@ func runWorld(t *testing.T, tape *simrt.Tape, g simrt.Gen, layerB bool) *common.
 		}
 		wg.Wait()
 		takeSample()
+		for ri, rd := range rounds {
+			// back to "limited only"
+			for _, c := range A.Swarm.ConnsToPeer(B.ID) {
+				if !isRelayAddr(c.RemoteMultiaddr()) {
+					c.Close()
+				}
+			}
+			simrt.WaitIdle()
+			if A.Swarm.Connectedness(B.ID) == network.NotConnected {
+				setReachable(false)
+				err := with(30*time.Second, func(ctx context.Context) error {
+					return A.Host.Connect(network.WithAllowLimitedConn(ctx, "c12"), peer.AddrInfo{ID: B.ID})
+				})
+				setReachable(true)
+				if err != nil {
+					o.Trouble = "race round: relayed connection: " + err.Error()
+					return
+				}
+			}
+			simrt.TimeSleep(1500 * time.Millisecond)
+			takeSample()
+			gate := make(chan struct{})
+			w.gate, w.gaterYields, w.gateArmed = gate, rd.gaterYields, !rd.gateAtDial
+			var rwg simsync.WaitGroup
+			for k, wt := range rd.waiters {
+				rwg.Add(1)
+				simrt.GoNamed(fmt.Sprintf("waiter%d.%d", ri, k), func() {
+					defer rwg.Done()
+					simrt.Recv("c12.gate", (<-chan struct{})(gate))
+					for i := 0; i < wt.yields; i++ {
+						simrt.Yield("c12.waiter")
+					}
+					r := &opRec{task: 100 + ri, idx: k, spec: wt.spec}
+					w.ops = append(w.ops, r)
+					w.call(A, B.ID, r)
+				})
+			}
+			rwg.Add(1)
+			simrt.GoNamed(fmt.Sprintf("dialer%d", ri), func() {
+				defer rwg.Done()
+				for i := 0; i < rd.dialerYields; i++ {
+					simrt.Yield("c12.dialer")
+				}
+				if rd.gateAtDial {
+					w.openGate()
+				}
+				err := with(5*time.Second, func(ctx context.Context) error {
+					ctx = network.WithForceDirectDial(ctx, "c12")
+					if rd.inbound {
+						_, err := B.Swarm.DialPeer(ctx, A.ID)
+						return err
+					}
+					_, err := A.Swarm.DialPeer(ctx, B.ID)
+					return err
+				})
+				w.openGate() // whatever happened: the waiters must not be left behind
+				o.Logf("round%d dial done @%d t=%v err=%v", ri, simrt.Stamp(), simrt.Now(), err != nil)
+			})
+			rwg.Wait()
+			w.gateArmed = false
+		}
+		if len(rounds) > 0 {
+			takeSample()
+		}
 		if layerB {
 			// let a hole punch that is still under way end (3 attempts of at most directDialTimeout each + the direct dial)
 			simrt.TimeSleep(4*directDialTimeout + 10*time.Second)
